@@ -31,7 +31,7 @@ DIR = db.DIR_OFFSET
 
 class DiskAddFile:
     name = "disk_addfile"
-    props = ("C08", "C15", "C07", "C13")
+    props = ("C08", "C15", "C07", "C13", "C16", "C09")
     max_paths = 600
 
     def cells(self, tier):
@@ -82,6 +82,8 @@ class DiskAddFile:
             env.fail(KEY + "add_file::raises", ("C15", "C13"), lambda: "add_file:%s:raised:%s" % (kind, e.cls))
             return
         img = list(buf)
+        env.ensure(KEY + "add_file::post:frame:file-data-unchanged", list(F.get(f, "data")) == list(data), ("C16", "C09"),
+                   lambda: "add_file:%s:file-data-length=%d,was=%d" % (kind, len(list(F.get(f, "data"))), len(data)))
         need = (L + pre_len + post_len) // GR + 1
         newly = [g for g in range(68) if before[FAT + g] == 0xFF and img[FAT + g] != 0xFF]
         env.ensure(KEY + "add_file::post:granules-allocated", len(newly) == need and all(before[FAT + g] == img[FAT + g] for g in range(68) if g not in newly),
@@ -313,6 +315,11 @@ class DiskAddFile:
             return
         Afat, s_, kk = st["fat"]
         env.ensure(key + "::post:exactly-needed-granules", kk == need, ("C15", "C08"))
+        # the CoCoFile handed in is outside add_file's frame: its data list is the same list with the same contents afterwards
+        # (the same object is written to other containers later: file_util --to_dsk --to_bin, VirtualFile.save_virtual_file)
+        dd = F.get(f, "data")
+        env.ensure(key + "::post:frame:file-data-unchanged",
+                   And(dd is data, data.arr is DA, isinstance(data.off, int) and data.off == 0, data.length() == L), ("C16", "C09"))
         base = st["dir"][0]
         # FAT bytes 68..255 zero
         ok = True
